@@ -17,6 +17,7 @@ from .commons import (
     decode_unit,
     CcsdsError,
     DATE_FMT_DEFAULT,
+    in_scale,
     kvn2dict,
     xml2dict,
     get_format,
@@ -295,7 +296,7 @@ GM                   = {gm:11.4f} [km**3/s**2]
                 duration = 0
 
             # Same time system as the state vector (declared in the metadata)
-            date = date.change_scale(cart.date.scale.name)
+            date = in_scale(date, cart.date.scale.name)
 
             text += """{comment}
 MAN_EPOCH_IGNITION   = {date:{dfmt}}
@@ -422,7 +423,7 @@ def _dumps_xml(data, *, kep=True, **kwargs):
                 duration = 0
 
             # Same time system as the state vector (declared in the metadata)
-            date = date.change_scale(data.date.scale.name)
+            date = in_scale(date, data.date.scale.name)
 
             man_epoch = ET.SubElement(mans, "MAN_EPOCH_IGNITION")
             man_epoch.text = date.strftime(DATE_FMT_DEFAULT)
